@@ -30,6 +30,7 @@ type c21RingCase struct {
 	VN      int
 	Hasher  string // "xxh3" | "mod<k>": xxh3 reduced modulo k (collisions)
 	Keys    []string
+	Big     bool // large ring: the vnode hash table and r.keys are not written out (only their size / duplicates)
 }
 
 type c21RingPhase struct {
@@ -38,6 +39,8 @@ type c21RingPhase struct {
 	Keys    []string   // r.keys after set
 	Owner   []string   // lookup(Keys[j])
 	Owner2  []string   // lookup again
+	NKeys   int        // len(r.keys)
+	DupKeys int        // number of duplicate entries in r.keys (vnode collisions)
 }
 
 type c21RingOut struct {
@@ -75,13 +78,21 @@ func TestVerifC21Ring(t *testing.T) {
 		}
 		phase := func(members []string) {
 			ring.set(append([]string(nil), members...))
-			p := c21RingPhase{Members: members, Keys: c21U64s(ring.keys)}
-			for _, m := range members {
-				row := make([]uint64, 0, ring.virtualNodes)
-				for i := 0; i < ring.virtualNodes; i++ {
-					row = append(row, ring.hashVNode(m, i))
+			p := c21RingPhase{Members: members, NKeys: len(ring.keys)}
+			for i := 1; i < len(ring.keys); i++ {
+				if ring.keys[i] == ring.keys[i-1] {
+					p.DupKeys++
 				}
-				p.VHash = append(p.VHash, c21U64s(row))
+			}
+			if !c.Big {
+				p.Keys = c21U64s(ring.keys)
+				for _, m := range members {
+					row := make([]uint64, 0, ring.virtualNodes)
+					for i := 0; i < ring.virtualNodes; i++ {
+						row = append(row, ring.hashVNode(m, i))
+					}
+					p.VHash = append(p.VHash, c21U64s(row))
+				}
 			}
 			for _, k := range c.Keys {
 				p.Owner = append(p.Owner, ring.lookup(k))
@@ -243,6 +254,9 @@ type c21Case struct {
 	Keys    []string // hash: message keys (one message per entry); others: ignored
 	Count   int      // number of broadcasts (rr / fanout / random)
 	Shrink  int      // hash: after the first pass remove this many routees (AdjustRouterPoolSize(-Shrink)) and send the keys again
+	Directive string // "" | restart | resume | stop: the router's routee supervision directive
+	Fail    int      // after the first pass this many routees fail, each with the interleaving: the routee suspends itself, the
+	                 // router handles a Broadcast, only then the failure signal reaches the router; then send again
 	Kill    int      // after the first pass stop this many routees from outside the router (routee.Shutdown), then send again
 	VN      int
 }
@@ -264,6 +278,9 @@ type c21Out struct {
 	Pass2          map[string][]string `json:",omitempty"`
 	Alive2         []string            `json:",omitempty"` // routees left after shrinking / stopping
 	Killed         []string            `json:",omitempty"`
+	Failed         []string            `json:",omitempty"` // routees that failed (Fail scenario)
+	Window         map[string][]string `json:",omitempty"` // Fail: receivers of the Broadcast handled inside each failure window
+	Handled        bool                // Fail: every failure was handled by the router within the deadline
 	Sent1, Sent2   int
 	Err            string `json:",omitempty"`
 }
@@ -390,6 +407,14 @@ func TestVerifC21Route(t *testing.T) {
 					opts = append(opts, WithConsistentHashVirtualNodes(c.VN))
 				}
 			}
+			switch c.Directive {
+			case "restart":
+				opts = append(opts, WithRestartRouteeOnFailure(2, 50*time.Millisecond))
+			case "resume":
+				opts = append(opts, WithResumeRouteeOnFailure())
+			case "stop":
+				opts = append(opts, WithStopRouteeOnFailure())
+			}
 			rpid, err := sys.SpawnRouter(ctx, rname, c.N, &verifC21Routee{}, opts...)
 			if err != nil {
 				out.Err = err.Error()
@@ -470,6 +495,80 @@ func TestVerifC21Route(t *testing.T) {
 				}
 				sort.Strings(out.Alive2)
 				out.Sent2, out.Pass2 = send(c.Keys, c.Count)
+			}
+			if c.Fail > 0 {
+				xr, _ := rpid.Actor().(*router)
+				byName := map[string]*PID{}
+				if xr != nil {
+					for _, p := range xr.routeesMap { // the router is idle
+						byName[p.Name()] = p
+					}
+				}
+				out.Window = map[string][]string{}
+				out.Handled = true
+				suspended := 0
+				for vi := 0; vi < c.Fail && vi < len(names); vi++ {
+					victim := byName[names[vi]]
+					if victim == nil {
+						continue
+					}
+					out.Failed = append(out.Failed, names[vi])
+					before := victim.RestartCount()
+					// 1st half of PID.notifyParent: the failing routee suspends itself
+					victim.suspend("verif: routee failure")
+					suspended++
+					// the router handles a Broadcast before the failure signal gets to it
+					c21Rec.reset()
+					msgID++
+					wid := msgID
+					_ = Tell(ctx, rpid, NewBroadcast(&verifC21Msg{ID: wid, Key: "window"}))
+					wantW := 1
+					if c.Strategy == "fanout" {
+						wantW = c.N - 1
+						if c.Directive == "stop" {
+							wantW = c.N - suspended
+						}
+					}
+					c21Rec.waitFor(wantW, 5*time.Second)
+					rs := c21Rec.snapshot()[wid]
+					sort.Strings(rs)
+					out.Window[names[vi]] = rs
+					// 2nd half: the routee tells its parent, which escalates to the router actor
+					victim.notifyParent(newSupervisionSignal(fmt.Errorf("verif: routee failure"), &verifC21Msg{ID: -1}))
+					ok := false
+					for tries := 0; tries < 5000; tries++ {
+						switch c.Directive {
+						case "restart":
+							ok = victim.IsRunning() && victim.RestartCount() > before
+						case "stop":
+							ok = !victim.IsRunning() && !victim.IsSuspended()
+						default:
+							ok = victim.IsRunning()
+						}
+						if ok {
+							break
+						}
+						time.Sleep(time.Millisecond)
+					}
+					if !ok {
+						out.Handled = false
+					}
+					if c.Directive != "stop" {
+						suspended--
+					}
+				}
+				// let the router finish the PanicSignal turn(s): a GetRoutees round trip is processed after them
+				_, _ = Ask(ctx, rpid, &GetRoutees{}, time.Second)
+				for _, ch := range rpid.Children() {
+					if ch.IsRunning() {
+						out.Alive2 = append(out.Alive2, ch.Name())
+					}
+				}
+				sort.Strings(out.Alive2)
+				saveN := c.N
+				c.N = len(out.Alive2)
+				out.Sent2, out.Pass2 = send(c.Keys, c.Count)
+				c.N = saveN
 			}
 			if c.Kill > 0 {
 				// stop routees behind the router's back (as an operator, a poison pill or the routee
